@@ -28,6 +28,38 @@ add("C23", "proof", "every ensures clause and both loop invariants of connected_
 add("C24", "proof", "16 targets of OrderedSet.py (constructor, add, discard, update, copy, len, contains, iter, <=, >=, ordered_union/intersect/diff) proved against the abstraction (member set, injective insertion stamps): 130 obligations incl. loop invariants with the ghost first-occurrence map. Inherited MutableSet mixins and __lt__/__gt__/union are only in the bounded ride-along (all op sequences ≤3/4).",
     PYVC_TB + "; OrderedDict iteration = insertion order; update proved for 0,1,2 iterables", "contract-based deductive verification: representation invariant + loop invariants, VCs from the real AST, z3", "§5 C24")
 
+HYB = "hybrid: "
+add("C04", "other", "bounded: every SQL formatting/optimisation option combination (2^4 x 3 indents x extend-merge on/off on SQLite; PostgreSQL text with CTE elimination on the sqlite3 surrogate) must return the same table as the default options, on the enumerated corpus plus DAGs that share a sub-pipeline. No obligation proved yet for this property.",
+    BOUNDED_TB + "; PostgreSQL dialect text executed on sqlite3 as a labelled surrogate", "run-time contract over an enumerated small scope (bounded stand-in); no obligation proved", "§5 C04")
+add("C05", "other", "bounded: every catalogued (method, backend) pair marked supported (Pandas, SQLite; Polars when it returns) against doc_meaning reference functions written from the Term docstrings, over an operand grid incl. nulls. The 3VL proofs of the SQL formatters are not built yet.",
+    BOUNDED_TB + "; PostgreSQL column of the catalogue not executed", "run-time contract over an enumerated operand grid (bounded stand-in); no obligation proved", "§5 C05")
+add("C07", "other", HYB + "PROVED for all inputs: every replace_leaves (10 node classes) rebuilds its node from the replaced sources and every stored constructor argument, binding the builders' real signatures; BOUNDED: the four composition routes, associativity (by result) and dom/cod on the real code over enumerated pairs/triples.",
+    PYVC_TB + "; " + BOUNDED_TB, "contract-based deductive verification of the rebuild obligations (VCs from the real AST, z3) + run-time contracts over an enumerated scope for the engine-dependent part", "§5 C07")
+add("C09", "other", "bounded: row counts of project / windowed extend against distinct key tuples of the materialised input (null = a key of its own, empty inputs, outputs overwritten or dropped later) on Pandas, Polars, SQLite. The term-count obligation on project_to_near_sql is not built yet.",
+    BOUNDED_TB, "run-time contract over an enumerated small scope (bounded stand-in); no obligation proved", "§5 C09")
+add("C10", "proof", "for each of the 13 node classes: need_i(N,U) ⊆ columns_used_from_sources(U)[i] ⊆ columns(source_i) and one entry per source, for all nodes and all requested sets (77 obligations incl. two accumulation-loop invariants). The DAG-wide fixpoint and the tie of `need` to the executors are bounded (perturb every unreported column; narrow the descriptions).",
+    PYVC_TB + "; need_i is a spec function from the operator documentation; constructor facts as preconditions", "contract-based deductive verification (VCs from the real AST, z3) with a bounded perturbation ride-along", "§5 C10")
+add("C11", "proof", "IFF characterisation of all 13 _equiv_nodes, of ViewRepresentation.__eq__ (loop + recursion through its own contract), RecordMap.__eq__, RecordSpecification.__eq__ against the reviewed semantic field sets (41 obligations); TableDescription.__eq__ and constant/order comparisons are recorded findings with native witnesses. Bounded all-pairs search for equal-but-different pipelines rides along.",
+    PYVC_TB + "; Term.is_equal decides an equivalence on expressions (its own defects only in the bounded run); F(C) reviewed lists", "contract-based deductive verification (VCs from the real AST, z3) + bounded all-pairs search", "§5 C11")
+add("C12", "other", "bounded: all expression trees up to the stated depth in every operator position and every node kind: eval_da_ops(printed) == ops, same printed form, same Pandas result, pickle round trip. Precedence-level proofs of to_python are not built.",
+    BOUNDED_TB + "; lark grammar; black", "run-time contract over an enumerated small scope (bounded stand-in); no obligation proved", "§5 C12")
+add("C13", "other", "bounded: all expression texts up to the stated operator count: value through the real Pandas executor vs Python's eval, tree shape vs ast.parse, print/parse round trip.",
+    BOUNDED_TB + "; lark LALR + vendored grammar", "run-time contract over an enumerated small scope (bounded stand-in); no obligation proved", "§5 C13")
+add("C14", "other", "bounded: all strings up to the stated length over a special-character alphabet as literal, column, table, concat label, control-table entry and annotation: executed and read back on SQLite (PostgreSQL text on the surrogate), tokenised by a dialect lexer for MySQL / Spark / BigQuery. The quote_string induction lemma is not built.",
+    BOUNDED_TB + "; dialect lexers written from the vendors' lexical documentation", "run-time contract over an enumerated small scope (bounded stand-in); no obligation proved", "§5 C14")
+add("C15", "exploration", "bounded stand-in only: renaming one column/table at a time to every internal name harvested from the current source, over the operator-pair corpus on Pandas, Polars, SQLite.",
+    BOUNDED_TB, "run-time contract over an enumerated small scope (bounded stand-in, not proved)", "§5 C15")
+add("C16", "other", "bounded: join type x key specification x all small table pairs (null and duplicate keys) on Pandas, Polars, SQLiteModel (emulated right/full) and native RIGHT/FULL text, against a reference join and a hand-written native SQL join. The key-swap obligation of the SQLite right-join emulation is not built as a proof (the defect itself was fixed).",
+    BOUNDED_TB, "run-time contract over an enumerated small scope (bounded stand-in); no obligation proved", "§5 C16")
+add("C17", "exploration", "bounded stand-in only: inverse / compose / >> laws and Pandas≡Polars for all small strict control tables and conforming data tables.",
+    BOUNDED_TB, "run-time contract over an enumerated small scope (bounded stand-in, not proved)", "§5 C17")
+add("C20", "proof", "13 public methods of DataModelSpace and DBSpace proved against the keyed-store abstraction with postconditions over the WHOLE view, also on raising paths (96 obligations); DBSpace.execute onto an existing key is a recorded finding (region split: the residual obligation is discharged). All histories up to length 3/4 on both real spaces ride along.",
+    PYVC_TB + "; database handle under ASSUMED keyed-store contracts; eval / CREATE TABLE AS as functions of the store contents", "contract-based deductive verification (whole-view postconditions, VCs from the real AST, z3) + bounded histories", "§5 C20")
+add("C21", "exploration", "bounded stand-in only: rank_to_average, last_observed_carried_forward, replicate_rows_query, def_multi_column_map against independent reference computations on all small tables, Pandas and SQLite.",
+    BOUNDED_TB, "run-time contract over an enumerated small scope (bounded stand-in, not proved)", "§5 C21")
+add("C27", "other", "bounded: each window function x partition/order/reverse specification x all small tables with total orders against a reference window evaluator; backends per the live catalogue, Polars when it returns. Call-site argument obligations are not built.",
+    BOUNDED_TB, "run-time contract over an enumerated small scope (bounded stand-in); no obligation proved", "§5 C27")
+
 NA = [("C02", "no PostgreSQL server or formal PostgreSQL semantics in the sandbox: no contract within reach can be discharged or even checked boundedly; dialect text paths are exercised under C04/C16 on SQLite as a labelled surrogate, which does not decide C02")]
 
 def main():
